@@ -27,8 +27,9 @@ RULE = {
     "scenario digest.",
 }
 
-FILES = ["a", "b", "a.b", "a b", "a-b", "a+b", "a0", "ab", "data", "data.csv", "data-old", "Z", "z", "ü", "é", "é", "名", "_", "0"]
-DIRS = ["a", "data", "d", "ü", "z", "a b", "名"]
+FILES = ["a", "b", "a.b", "a b", "a-b", "a+b", "a0", "ab", "data", "data.csv", "data-old", "Z", "z", "ü", "\u00e9", "e\u0301",
+         "u\u0308", "名", "_", "0"]  # NFC and NFD spellings are different file names on Linux
+DIRS = ["a", "data", "d", "ü", "u\u0308", "z", "a b", "名", "data-old", "dat"]
 
 
 def generate(prop, rng):
